@@ -268,6 +268,8 @@ def _from(vm, cal, args):
         return Adt('anyhow::Error', 0, (v,))
     if ''.join(target.split()) == ''.join(src.split()):
         return v
+    if tb in ('HashMap', 'BTreeMap', 'HashSet') and isinstance(v, (tuple, VecV)):
+        return collect_into(vm, list(seq_of(vm, v)), target)
     if tb in ('Vec',) and isinstance(v, (tuple, VecV)):
         return VecV(seq_of(vm, v))
     if tb in INT_TYPES and isinstance(v, I):
@@ -1692,3 +1694,62 @@ def _thread_rng(vm, cal, args):
 def _rng_gen(vm, cal, args):
     ty = (cal.method_generics or 'u64').strip()
     return vm.fresh_of_type(ty, "rand")
+
+
+# ===================================================================== crossbeam channels as FIFO queues
+# A channel is a cell holding a queue. Blocking `recv` on an empty queue is a scheduling point: the spec's scheduler
+# (vm.notes['sched']) may run store workers; if the queue is still empty the receive fails (disconnected / would
+# block forever), which also ends a worker's `while let Ok(c) = recv()` loop after it drained its commands.
+@reg((None, None, 'unbounded'), (None, None, 'bounded'))
+def _chan_new(vm, cal, args):
+    q = Cell(VecV((), 'queue'), vm.fresh_tag('chan'))
+    return (Adt('Sender', 0, (Ref(q),)), Adt('Receiver', 0, (Ref(q),)))
+
+
+def _chan_q(vm, v):
+    while isinstance(v, Ref):
+        v = vm.deref(v)
+    if not (isinstance(v, Adt) and v.ty in ('Sender', 'Receiver')):
+        raise Unmodelled("channel endpoint expected, got %r" % (v,))
+    return v.fields[0]
+
+
+@reg(('Sender', None, 'send'))
+def _chan_send(vm, cal, args):
+    q = _chan_q(vm, args[0])
+    cur = vm.deref(q)
+    vm.store(q, VecV(cur.items + (args[1],), 'queue'))
+    s = vm.notes.get('sched')
+    if s is not None:
+        s.on_send(vm, q.cell)
+    return OK(())
+
+
+@reg(('Receiver', None, 'recv'))
+def _chan_recv(vm, cal, args):
+    q = _chan_q(vm, args[0])
+    cur = vm.deref(q)
+    if not cur.items:
+        s = vm.notes.get('sched')
+        if s is not None:
+            s.on_block(vm, q.cell)
+        cur = vm.deref(q)
+    if not cur.items:
+        return ERR(Adt('RecvError', 0, ()))
+    vm.store(q, VecV(cur.items[1:], 'queue'))
+    return OK(cur.items[0])
+
+
+@reg(('Receiver', None, 'is_empty'))
+def _chan_is_empty(vm, cal, args):
+    return BOOL(len(vm.deref(_chan_q(vm, args[0])).items) == 0)
+
+
+@reg(('Receiver', None, 'len'))
+def _chan_len(vm, cal, args):
+    return usize(len(vm.deref(_chan_q(vm, args[0])).items))
+
+
+@reg(('JoinHandle', None, 'join'))
+def _join_handle(vm, cal, args):
+    return OK(())
